@@ -161,11 +161,6 @@ var (
 				_ = cmd.Help()
 				os.Exit(1)
 			}
-			if abort {
-				if f, err := os.Create(AbortFile); err == nil {
-					_ = f.Close()
-				}
-			}
 			// Read the first line of SignalProgressFilePath.
 			code, content, err := readSignalProgressFile(SignalProgressFilePath)
 			if err == nil && code != consts.ReloadDone && code != consts.ReloadError {
@@ -175,6 +170,12 @@ var (
 					fmt.Printf("%v shows another reload operation is in progress.\n", SignalProgressFilePath)
 				}
 				return
+			}
+			// Leave the abort marker only for a request that is actually sent.
+			if abort {
+				if f, err := os.Create(AbortFile); err == nil {
+					_ = f.Close()
+				}
 			}
 			// Set the progress as ReloadSend and roll it back if signaling fails.
 			if err = writeReloadSendAndSignal(SignalProgressFilePath, pid, syscall.Kill); err != nil {
